@@ -68,12 +68,14 @@ CONSTANTS Names,        \* set of strings: component names
           PlatGlobalVals, \* subset of 0..3: value v > 0 = the GLOBAL scope of platform "other" defines rg = rs = rc = v (ag = odd(v))
           PlatStageVals0, \* subset of 0..3: value v > 0 = the stage-0 scope of platform "other" defines rs = v (ag = odd(v))
           PlatStageVals1, \*   "  for its stage-1 scope
+          MsgStageVals, \* subset of 0..2, only used by Validate.tla (C11): 1 + the stage whose scope ALSO defines the variable
+                        \* `msg` the last component uses in its arguments (0 = no stage scope defines it); {0} for C03
           FixedNames,   \* TRUE: the i-th component built takes the i-th of the well-separated names p, q, r, s
                         \*       (shape slices: no permutations of interchangeable names)
           Emit          \* TRUE: print every expanded state as JSON for the conformance driver
 
 VARIABLES comps,    \* Seq of [name, stage, rep, agg, refs, priv, aggv]; refs: Seq of [p, sp, path, m, st]
-          svals,    \* <<v0, v1, plat, pg, ps0, ps1>> chosen in Init (0 = nothing): what the stage-0 / stage-1 scopes of the default
+          svals,    \* <<v0, v1, plat, pg, ps0, ps1, mst>> chosen in Init (0 = nothing): what the stage-0 / stage-1 scopes of the default
                     \* platform define, the platform loaded, what platform "other" defines globally and in its two stage scopes
           phase,    \* "build" | "expanded"
           order,    \* document order of the case ("fwd" until Expand chooses)
@@ -128,8 +130,9 @@ OwnCount(c) == CASE c.rep = "none" -> 0
 ---------------------------------------------------------------------------
 (* Building the workflow *)
 Init == /\ comps = <<>>
-        /\ svals \in {<<v0, v1, pl, pg, p0, p1>> : v0 \in StageVals0, v1 \in StageVals1, pl \in Platforms,
-                                                   pg \in PlatGlobalVals, p0 \in PlatStageVals0, p1 \in PlatStageVals1}
+        /\ svals \in {<<v0, v1, pl, pg, p0, p1, ms>> : v0 \in StageVals0, v1 \in StageVals1, pl \in Platforms,
+                                                       pg \in PlatGlobalVals, p0 \in PlatStageVals0, p1 \in PlatStageVals1,
+                                                       ms \in MsgStageVals}
         /\ phase = "build"
         /\ order = "fwd"
         /\ out = [status |-> "none", nodes |-> <<>>]
